@@ -698,12 +698,9 @@ func classOf(p heap.SharedPair) string {
 	}
 	// class = type of the shared thing + the field that refers to it (no indices, no
 	// property names, no access path: one root cause gives one class)
-	tail := stripBrackets(p.B.Path)
+	tail := strings.TrimSuffix(stripGroups(stripGroups(p.B.Path, '(', ')', ""), '[', ']', "[]"), ".*")
 	if i := strings.LastIndex(tail, "."); i >= 0 {
 		tail = tail[i+1:]
-	}
-	if i := strings.Index(tail, "("); i >= 0 {
-		tail = tail[:i]
 	}
 	s := "data:" + p.B.Type.String() + "@" + tail
 	if p.Interior {
@@ -712,15 +709,18 @@ func classOf(p heap.SharedPair) string {
 	return s
 }
 
-func stripBrackets(s string) string {
+// stripGroups replaces every open...close group of s by repl.
+func stripGroups(s string, open, close rune, repl string) string {
 	var sb strings.Builder
 	depth := 0
 	for _, c := range s {
 		switch {
-		case c == '[':
+		case c == open:
+			if depth == 0 {
+				sb.WriteString(repl)
+			}
 			depth++
-			sb.WriteString("[]")
-		case c == ']':
+		case c == close && depth > 0:
 			depth--
 		case depth == 0:
 			sb.WriteRune(c)
